@@ -36,6 +36,7 @@ pub enum K {
     Diverge, // macro: two replicas edit and commit concurrently, then one learns the other's work
     Trickle, // macro: every item a replica lacks is delivered one file at a time, refresh after each
     Echo, // macro: a replica that holds another's packs (but not its blocks) commits the same content, then a third learns its blocks only
+    Rounds, // macro: several rounds of "everyone edits and commits, then everyone exchanges with everyone" (blocks with 3+ parents)
     Burst, // macro: a long run of successive small edits of the same objects (revision indices >= 10, >= 100)
     SameEdit,
     N,
@@ -193,6 +194,11 @@ pub fn profile_for(prop: &str, variant: u64) -> Profile {
         }
         "C10" => {
             p.name = "damage-histories";
+            // stores whose blocks depend on packs outside their own ancestry (Echo) and on items
+            // that arrived file by file (Trickle) make deletions and damage bite in more ways
+            w[K::Echo as usize] = 10;
+            w[K::Trickle as usize] = 6;
+            w[K::Diverge as usize] = 12;
             p.replicas = (2, 3);
             p.len = (6, 18);
             p.converge_end = 0;
@@ -216,12 +222,14 @@ pub fn profile_for(prop: &str, variant: u64) -> Profile {
         }
         "C13" => {
             p.name = "commit-graph";
+            w[K::Rounds as usize] = 2;
             w[K::ReloadUntil as usize] = 4;
             w[K::Reload as usize] = 4;
             p.len = (8, 50);
         }
         "C14" => {
             p.name = "time-travel";
+            w[K::Rounds as usize] = 3;
             w[K::ReloadUntil as usize] = 10;
             w[K::Reload as usize] = 6;
             p.len = (10, 50);
@@ -656,6 +664,49 @@ impl Gen {
                         // blocks and r's own packs, never the foreign packs
                         let t = (0..n).find(|x| *x != r && *x != other).unwrap();
                         self.follow = Some((r, other, t));
+                    }
+                    v
+                }
+            }
+            x if x == K::Rounds as usize => {
+                if n < 2 || (0..n).any(|x| w.replicas[x].time_travel) {
+                    vec![Op::Reload { r }]
+                } else {
+                    let rounds = self.rng.range(2, 6);
+                    let mut v = vec![];
+                    for x in 0..n {
+                        if self.staging(w, x) {
+                            v.push(Op::Commit { r: x, info: None });
+                        }
+                    }
+                    // documents are derived from what each replica shows now; later rounds only touch a
+                    // counter so that the ops stay concrete without knowing the merged documents
+                    let mut docs: Vec<Value> = (0..n).map(|x| self.doc_of(w, x, 1)).collect();
+                    for round in 0..rounds {
+                        for x in 0..n {
+                            if let Some(o) = docs[x].as_object_mut() {
+                                o.insert("title".to_string(), json!(format!("r{}-{}", x, round)));
+                            }
+                            v.push(Op::Update { r: x, doc: docs[x].clone(), twice: false });
+                            v.push(Op::Commit { r: x, info: None });
+                        }
+                        for a in 0..n {
+                            for b in 0..n {
+                                if a != b {
+                                    v.push(Op::Meld { r: a, from: b });
+                                }
+                            }
+                        }
+                        for x in 0..n {
+                            v.push(Op::Refresh { r: x });
+                        }
+                    }
+                    if self.w[K::ReloadUntil as usize] > 0 {
+                        // travel through the graph just built (late and early head sets), then come back
+                        for _ in 0..self.rng.range(1, 3) {
+                            v.push(Op::ReloadUntil { r, sel: self.rng.next() as u32 });
+                        }
+                        v.push(Op::Reload { r });
                     }
                     v
                 }
